@@ -36,6 +36,7 @@ type Obligation struct {
 	Model  map[string]string
 	Output string
 	Retried bool // decided (or not) only in the low-concurrency retry phase
+	Unconfirmed bool // thorough tier: proved by one solver, no second solver decided it in time
 }
 
 type LazyForall struct {
